@@ -96,6 +96,12 @@ claimed["C06"]=dict(
    text="For all six etypes: decryption succeeds only if the presented bytes carry the RFC MAC for what they decrypt to under the presented key and usage, and returns no plaintext otherwise; that modified ciphertexts, other keys or usages fail then rests on the MAC assumption.",
    note="Trusted: HMAC uninterpreted + MAC assumption, cipher modes uninterpreted, key derivation from C07/C08.",
    design="4/C06")
+claimed["C20"]=dict(
+   technique="contract-style label check decided over go/ssa and go/types: a table of secret-bearing fields (sources) and of formatting / logging / error-text / JSON functions (sinks); one obligation per operand handed to a sink anywhere in the library: its static type must not reach a secret field the way the sink prints it; plus a bounded stand-in for wire re-encodings",
+   category="other",
+   text="Exact type-level decision on the current source: no operand of a fmt / log / krberror / Log call and no value handed to encoding/json can reach key material or a password through its fields (fmt: all fields, json: exported and not json:\"-\"). It is flow-insensitive: secrets copied into plain byte slices or strings lose their label, hex/base64 encodings and dependency output are not covered (listed as not decided). Not a solver-discharged proof, hence category 'other'.",
+   note="Trusted: the source and sink tables in gowp/props.go. Bounded: re-encoded tickets never contain the decrypted session key.",
+   design="4/C20")
 hooks=subprocess.run("git -C /repo log --format='%H %s' | grep ' verif:' | awk '{print $1}'",shell=True,capture_output=True,text=True).stdout.split()
 m={"version":1,
  "setup_cmd":"./setup.sh",
